@@ -73,7 +73,11 @@ class Atom(object):
             while fileobj.tell() < self.offset + self.length:
                 self.children.append(Atom(fileobj, level + 1))
         else:
-            fileobj.seek(self.offset + self.length, 0)
+            try:
+                fileobj.seek(self.offset + self.length, 0)
+            except OverflowError:
+                # 64 bit length beyond what seek() can handle
+                raise AtomError("atom length too large")
 
     @property
     def datalength(self):
